@@ -180,7 +180,8 @@ def run_cmd(cmd, cwd, timeout, logpath, limit=True):
     """Run a command in its own process group under a wall-clock limit and a
     resident-memory cap per process (watchdog; the solver is the only big one)."""
     t0 = time.time()
-    cap_kb = (40 if limit == "big" else MEM_LIMIT_GB) * (1 << 20) if limit else None
+    cap_gb = 40 if limit == "big" else (limit if isinstance(limit, int) and not isinstance(limit, bool) else MEM_LIMIT_GB)
+    cap_kb = cap_gb * (1 << 20) if limit else None
     with open(logpath, "w") as lf:
         p = subprocess.Popen(cmd, cwd=cwd, env=ENV, stdout=lf, stderr=subprocess.STDOUT, preexec_fn=os.setsid)
         timed_out = False
@@ -482,7 +483,7 @@ def _run_harness(h, slot):
             return res
         extra = ["--unwindset", spec]
         h["_cbmc_args"] = extra
-    rc, to, wall = run_cmd(kani_cmd(h, tdir, cbmc_args=extra), KANI, h["timeout"], logpath)
+    rc, to, wall = run_cmd(kani_cmd(h, tdir, cbmc_args=extra), KANI, h["timeout"], logpath, limit=max(MEM_LIMIT_GB, h.get("mem_gb", 4) + 4))
     res = parse_log(logpath)
     verdict, reason = classify(h, rc, to, res)
     res.update(verdict=verdict, reason=reason, wall_s=round(wall, 1), log=logpath)
